@@ -45,9 +45,11 @@ CONTEXTS = [
     ('um', '\\newcommand{\\mq}[1]{<#1>}\\mq{', '}'),
     # a file read before, which itself loads a package (nested text buffers): the position must still refer to the main text
     ('after-ltinput', '\\LTinput{ymcnest.tex}\\LTinput{ymcnest2.tex} ', ''),
+    # the preamble lines the README recommends for LaTeX's sake: the filter must not take them for definitions
+    ('readme-preamble', '\\newcommand{\\LTadd}[1]{}\\newcommand{\\LTalter}[2]{#1}\\newcommand{\\LTskip}[1]{#1}\\newcommand{\\LTinput}[1]{} ', ''),
 ]
 TAILTXT = ' Wtaq Wtbq Wtcq.'
-CONFIGS = {'std': {'pack': '*', 'lang': 'en'}, 'seqs': {'pack': '*', 'lang': 'de', 'seqs': True}}
+CONFIGS = {'std': {'pack': '*', 'lang': 'en'}, 'seqs': {'pack': '*', 'lang': 'de', 'seqs': True}, 'nosp': {'pack': '*', 'lang': 'en', 'nosp': True}}
 # well-formed texts under further option sets (no mark, no diagnostic expected)
 OK_RAW = ['The box is here, six taxis next exit.', 'A $x$ fox \\[ax = b.\\] x', 'Text\\footnote{x}, \\LTadd{x} \\LTskip{y} x\n%%% LT-SKIP-BEGIN\nx\n%%% LT-SKIP-END\nx',
           'x\\verb|x| \\begin{verbatim}x\\end{verbatim} x', 'Ein "a "` x "\' "- "= x']
@@ -112,6 +114,8 @@ class C08:
                     for sep in (' ', '\n'):
                         for final_nl in ((0,) if f[0] == 'verb-eot' else (0, 1) if c[0] == 'top' else (1,)):
                             for cfg in CONFIGS:
+                                if cfg == 'nosp' and (f[0] == 'skip' or c[0] not in ('top', 'readme-preamble', 'footnote')):
+                                    continue        # without specials the magic comment is a comment
                                 yield ['fault', fi, ci, tail, sep, final_nl, cfg]
         for ti in range(len(OK_RAW)):
             for ci in range(len(OK_CFGS)):
